@@ -46,6 +46,11 @@ NOW = "2023-11-14T22:00:00.000Z"
 # ----------------------------------------------------------------------------------------
 # exchange double
 # ----------------------------------------------------------------------------------------
+def rk(sel, hc=0):
+    """runner key: selection id, with the handicap of a line market appended"""
+    return str(sel) if not hc else "%s@%g" % (sel, hc)
+
+
 class _Betting:
     def __init__(self, x):
         self.x = x
@@ -419,8 +424,8 @@ class LiveRun:
         return {"status": STATUS_NAME[o.status], "cplt": bool(o.complete), "bet": o.bet_id is not None, "betid": str(o.bet_id) if o.bet_id is not None else "",
                 "side": o.side, "type": tname, "price": pence(getattr(ot, "price", 0) or 0), "size": pence(ot.size) if tname == "LIMIT" else pence(ot.liability),
                 "pers": getattr(ot, "persistence_type", None) or "NA", "m": f(lambda: o.size_matched), "rem": f(lambda: o.size_remaining), "can": f(lambda: o.size_cancelled),
-                "lap": f(lambda: o.size_lapsed), "void": f(lambda: o.size_voided), "inbl": inbl, "live": live, "trade": self.label_trade(o.trade), "selk": str(o.selection_id),
-                "mid": o.market_id, "strat": o.trade.strategy.name, "rck": "%s|%s|%s" % (o.trade.strategy.name, o.market_id, o.selection_id), "nlog": len(o.status_log),
+                "lap": f(lambda: o.size_lapsed), "void": f(lambda: o.size_voided), "inbl": inbl, "live": live, "trade": self.label_trade(o.trade), "selk": rk(o.selection_id, o.handicap),
+                "mid": o.market_id, "strat": o.trade.strategy.name, "rck": "%s|%s|%s" % (o.trade.strategy.name, o.market_id, rk(o.selection_id, o.handicap)), "nlog": len(o.status_log),
                 "red": pence(o.update_data.get("size_reduction")) if o.update_data.get("size_reduction") else 0, "newp": pence(o.update_data.get("new_price")) if o.update_data.get("new_price") else 0,
                 "inst": self.inst_of.get(id(o), self.instance), "async": bool(o.async_), "ref": o.customer_order_ref, "lad": "CLASSIC", "avg": f(lambda: o.average_price_matched),
                 "frags": [], "tif": "NONE", "minfill": -1, "piq": 0, "bspd": False, "mver": -1, "created": 0, "placed": 0, "supd": 0, "client": "double", "bseq": -1}
@@ -432,12 +437,12 @@ class LiveRun:
         st = {"clock": 0, "instance": self.instance}
         st["ord"] = {l: self.proj_order(o) for l, o in vis.items()}
         st["trd"] = {l: {"status": TSTATUS_NAME[t.status], "orders": [self.label_order(o) for o in t.orders], "pend": bool(t.pending_orders),
-                         "rck": "%s|%s|%s" % (t.strategy.name, t.market_id, t.selection_id), "mid": t.market_id}
+                         "rck": "%s|%s|%s" % (t.strategy.name, t.market_id, rk(t.selection_id, t.handicap)), "mid": t.market_id}
                      for l, t in self.trades.items() if self.tinst_of.get(id(t), 0) == self.instance}
         rc = {}
         for s in self.fl.strategies:
             for (mid, sel, hc), ctx in s._invested.items():
-                rc["%s|%s|%s" % (s.name, mid, sel)] = {"trades": [self._tl(t) for t in ctx.trades], "live": [self._tl(t) for t in ctx.live_trades], "lastp": 0 if ctx.datetime_last_placed else -1,
+                rc["%s|%s|%s" % (s.name, mid, rk(sel, hc))] = {"trades": [self._tl(t) for t in ctx.trades], "live": [self._tl(t) for t in ctx.live_trades], "lastp": 0 if ctx.datetime_last_placed else -1,
                                                        "lastr": 0 if ctx.datetime_last_reset else -1, "mid": mid}
         st["rc"] = rc
         st["mkt"] = {mid: {"status": mk.market_book.status if mk.market_book is not None else "NONE", "closed": bool(mk.closed), "ncleared": len(mk.orders_cleared) + len(mk.market_cleared), "nlive": len(mk.blotter._live_orders), "nord": len(mk.blotter._orders),
@@ -461,7 +466,7 @@ class LiveRun:
         ctl = [c for c in self.client.trading_controls if c.NAME == "MAX_TRANSACTION_COUNT"][0]
         st["tx"] = {"double": {"tot": ctl.transaction_count, "totf": ctl.failed_transaction_count}}
         st["xb"] = {bid: {"status": b["status"], "m": pence(b["matched"]), "rem": pence(b["remaining"]), "can": pence(b["cancelled"]), "lap": pence(b["lapsed"]), "ref": b["ref"] or "",
-                          "price": pence(b["price"]), "size": pence(b["size"]), "settled": bool(b.get("settled")), "mid": b["market_id"], "selk": str(b["selection_id"]), "side": b["side"],
+                          "price": pence(b["price"]), "size": pence(b["size"]), "settled": bool(b.get("settled")), "mid": b["market_id"], "selk": rk(b["selection_id"], b["handicap"]), "side": b["side"],
                           "sref": "KNOWN" if (b["ref"] or "")[:13] in self.fl.strategies.hashes else "UNKNOWN"}
                     for bid, b in self.x.bets.items()}
         st["live_orders_flag"] = bool(self.fl.markets.live_orders)
@@ -615,7 +620,7 @@ class LiveRun:
         elif op == "foreign":
             # a bet on the account that no strategy of this program placed (another program, or a strategy that
             # is no longer configured): it appears in every order-stream image from now on
-            ins = {"selectionId": s.get("sel", 11), "handicap": 0.0, "side": "BACK", "orderType": "LIMIT",
+            ins = {"selectionId": s.get("sel", 11), "handicap": float(s.get("hc", 0.0)), "side": "BACK", "orderType": "LIMIT",
                    "limitOrder": {"size": 2.0, "price": 2.0, "persistenceType": "LAPSE"}, "customerOrderRef": s.get("ref", "zzzzzzzzzzzzz-1234567890")}
             if s.get("known"):      # placed by an earlier incarnation of a strategy this instance runs: to be adopted
                 self.nforeign = getattr(self, "nforeign", 0) + 1
@@ -664,13 +669,14 @@ class LiveRun:
             if mk.closed:       # settled: nothing of it is at the exchange any more
                 continue
             for st in self.fl.strategies:
-                for sel in (11, 12):
-                    e = mk.blotter.get_exposures(st, (mid, sel, 0))
-                    ctx = st._invested.get((mid, sel, 0))
+                runners = {(11, 0), (12, 0)} | {(o.selection_id, o.handicap) for o in mk.blotter.strategy_orders(st)} | {(k[1], k[2]) for k in st._invested if k[0] == mid}
+                for sel, hc in sorted(runners):
+                    e = mk.blotter.get_exposures(st, (mid, sel, hc))
+                    ctx = st._invested.get((mid, sel, hc))
                     # live trades that have a live bet at the exchange (what a restarted instance can find there)
                     livex = 0
                     phantom = False
-                    for o in mk.blotter.strategy_selection_orders(st, sel, 0):
+                    for o in mk.blotter.strategy_selection_orders(st, sel, hc):
                         b = self.x.bets.get(o.bet_id) if o.bet_id else None
                         if b is not None and b["status"] == "EXECUTABLE":
                             livex += 1
@@ -678,9 +684,9 @@ class LiveRun:
                         # still in the figures: nothing a restarted instance could adopt
                         if b is None and o.order_type.ORDER_TYPE.name != "LIMIT" and o.status.value not in ("Violation", "Pending"):
                             phantom = True
-                    out["%s|%s|%s" % (st.name, mid, sel)] = {"win": pence(e["worst_possible_profit_on_win"]), "lose": pence(e["worst_possible_profit_on_lose"]),
+                    out["%s|%s|%s" % (st.name, mid, rk(sel, hc))] = {"win": pence(e["worst_possible_profit_on_win"]), "lose": pence(e["worst_possible_profit_on_lose"]),
                                                              "ntrades": len(ctx.trades) if ctx else 0, "nlive": len(ctx.live_trades) if ctx else 0, "nlivex": livex, "phantom": phantom,
-                                                             "norders": len(mk.blotter.strategy_selection_orders(st, sel, 0))}
+                                                             "norders": len(mk.blotter.strategy_selection_orders(st, sel, hc))}
         return out
 
     def process_snapshot(self, snap, raise_spec):
@@ -718,7 +724,7 @@ class LiveRun:
                     q = {"kind": a["op"].upper(), "o": a.get("o"), "r": "NOORDER", "force": False, "strat": strat.name, "mid": mk.market_id}
                     try:
                         if a["op"] == "place":
-                            trade = Trade(mk.market_id, a["sel"], 0, strat)
+                            trade = Trade(mk.market_id, a["sel"], a.get("hc", 0), strat)
                             self.label_trade(trade, a.get("t") or "t_" + a["o"])
                             self.tinst_of[id(trade)] = self.instance
                             order = trade.create_order(a["side"], LimitOrder(a["price"], a["size"]))
@@ -747,7 +753,7 @@ class LiveRun:
                         tl = a.get("t") or "t_" + a["o"]
                         trade = self.trades.get(tl)
                         if trade is None or self.tinst_of.get(id(trade)) != self.instance:
-                            trade = Trade(mk.market_id, a["sel"], 0, strat)
+                            trade = Trade(mk.market_id, a["sel"], a.get("hc", 0), strat)
                             self.label_trade(trade, tl)
                             self.tinst_of[id(trade)] = self.instance
                         if a.get("type", "LIMIT") == "LIMIT":
